@@ -77,8 +77,8 @@ claim("C19",
       "Destinations are written through an emulated reflect.Value (SetInt/SetUint/SetFloat truncate/round like package reflect; validated by native replay). big.Float, DFloat and apd.Decimal sources go through decimal text and are outside reach.",
       "DESIGN.md §5 C19")
 claim("C07",
-      "Documents of 0..4 fully symbolic bytes (5 thorough) and structured documents reaching each of the 27 length-carrying CBE headers with symbolic length fields run through cbe.Decoder.DecodeDocument/Decode and the universal decoder, rules on and off; every path must return: an escaping panic, an oversized allocation request (> 64 MiB) or an exhausted step budget is reported as a violation with a model.",
-      "Outside: template types / unsupported kinds (reflection), the CTE parser proper, goroutine blocking. 'Never blocks' = per-path step budget of 5M interpreted instructions.",
+      "Documents of 0..4 fully symbolic bytes (5 thorough) and structured documents reaching each of the 27 length-carrying CBE headers with symbolic length fields run through cbe.Decoder.DecodeDocument/Decode and the universal decoder, rules on and off; the real cbe.Unmarshaler with 8 typed templates (structs with unknown keys, pointer/slice/map fields, *[]string, edge/node holders, interface{}) on marshaled documents cut at every position and with one byte replaced by a symbolic byte; the builders' error wind-up (OnError) with containers open. Every path must return: an escaping panic, an oversized allocation request (> 64 MiB) or an exhausted step budget is reported as a violation with a model.",
+      "Outside: the CTE parser proper, goroutine blocking. 'Never blocks' = per-path step budget (5M interpreted instructions; 2M inside Unmarshal). Byte replacement in the quick tier is limited to the first 10 positions.",
       "DESIGN.md §5 C07")
 claim("C08",
       "Ghost allocation counter over make/append in the real CBE decoder. (a) For every length-carrying header with symbolic length fields and a symbolic MaxArraySizeBytes in [1,4096], z3 shows no single request and no path total exceeds 64*len(document) + 2*MaxArraySizeBytes + 1 MiB, rules on and off. (b) Inductive step for long payloads: from a reader whose buffer has any size of the doubling sequence (127..65024), readIntoBuffer(count) with count symbolic up to 2^36 against a stream that really delivers 0..3*len(buffer) bytes reserves at most 4x the bytes received and leaves a buffer of at most twice the data received.",
@@ -89,8 +89,8 @@ claim("C09",
       "Outside: 'partial result is a prefix of the full value' (builders) and CTE. Raw documents containing the padding code are excluded (a cut before trailing padding leaves a complete document).",
       "DESIGN.md §5 C09")
 claim("C04",
-      "Two mechanisms of C04. (a) Chunked-array reassembly in the real builder.BuilderEventReceiver/Context with a recording builder on top of the stack: array type, number of chunks (1..3), element counts and data-event split points are enumerated by the engine, the content bytes are solver variables; z3 shows the builder is handed exactly one array, only after the final chunk, with the concatenated bytes. (b) Integer arrival: every int64/uint64 value, delivered as the events a decoder produces for it (PositiveInt/NegativeInt/Int) through the real event receiver and numeric setters into a destination of its own Go type (8..64 bits), is accepted and stored exactly.",
-      "Struct/map/slice/pointer builders are not covered here (C21 covers struct field matching); the Builder interface carries no element count, so bit-array lengths are not observable.",
+      "(a) Typed round trip through the real iterator Session, rules validator and builder Session (and, for the cases with few integers, the real CBE encoder and decoder in between): 22 Go types (struct of all integer widths, bool, string; floats; []byte, [2]byte, slices/arrays of uint16/int32/uint64/float32, []string, []int, []uint, []bool, maps, pointers nil/non-nil, *[]string, nested and embedded structs, interface{} fields, []struct, top-level int64/string) with symbolic contents; z3 shows marshal and unmarshal succeed and every field/element/entry of the result equals the original. (b) Chunked-array reassembly in the real BuilderEventReceiver/Context with symbolic content and every chunking. (c) Integer arrival: every int64/uint64 value as the events a decoder produces into a destination of its own type is accepted and stored exactly.",
+      "reflect, sync.Map and WaitGroup are the engine's emulation / sequential model (DESIGN.md §2); equality is checked field by field by the harness. Big numbers, times, URLs, media, custom types are not in this check; recursion support is C20. Open findings: []int/[]uint and []bool cannot be unmarshaled (KF-C04-int-uint-slices, KF-C04-bool-slices).",
       "DESIGN.md §5 C04")
 claim("C05",
       "Leaf iterators (bool slices, eight numeric slice kinds, Edge, Node) and the struct / record iterators built by the real extractFields/newStructIterator/newRecordIterators (6 struct shapes, embedded structs nested 1..5 deep) run on an emulated reflect.Value with symbolic contents; the emitted events go through the real rules validator and a recorder; z3 shows acceptance and that typed arrays carry exactly the elements and every field appears once, in order, under its name, with its own contents.",
